@@ -187,6 +187,15 @@ Proof. unfold set_expiry. destruct (get_db s d !! k); [destruct (expired _ _)|];
 
 Definition dl_ok (t : option Z) : Prop := match t with Some x => T <= x | None => True end.
 
+Lemma get_expiry_dl_ok s d k : dl_ge T s -> dl_ok (get_expiry s d k).
+Proof.
+  intros H. unfold get_expiry, dl_ok, get_db.
+  destruct (st_dbs s !! d) as [db|] eqn:Ed; simpl; [|by rewrite lookup_empty].
+  destruct (db !! k) as [e|] eqn:Ek; [|done].
+  destruct (expired (st_now s) e); [done|].
+  destruct (e_dl e) as [t|] eqn:Et; [|done]. by eapply H.
+Qed.
+
 Lemma set_expiry_dl_ge s d k t : dl_ge T s -> dl_ok t -> dl_ge T (set_expiry s d k t).
 Proof.
   intros H Ht. unfold set_expiry. destruct (get_db s d !! k) as [e|] eqn:E; [|done].
